@@ -167,7 +167,7 @@ def _optimiser(h, d, n, with_err=True, one_d_input=False):
     import inference.gp.optimisation as op
     import inference.gp.acquisition as aq
     h.patch(aq, erf=funcs.erf, erfcx=funcs.erfcx, minimum=funcs.minimum, maximum=funcs.maximum, float=object)
-    h.patch(op, float=stubs.sym_float)
+    h.patch(op, float=stubs.FloatLike)
     fits = []
     dt = object if h.sym else float
     mu, dmu = gc.smooth_ufunc(h, "mu", d, seed=1)
